@@ -108,6 +108,9 @@ func newSmaWorld(e *Env, prop string) *smaWorld {
 	if t.Chance(1, 2) {
 		w.settings.FirmwareRevision = 7
 	}
+	if t.Chance(1, 3) {
+		w.settings.OriginStateID = 77
+	}
 	for i, n := 0, t.Draw(3); i < n; i++ {
 		ip := net.IPv4(172, 16, byte(i), 1)
 		if t.Chance(1, 3) {
@@ -178,6 +181,7 @@ func (w *smaWorld) drainReports() {
 		case r := <-w.mach.ErrorReports():
 			w.reports++
 			if r != nil && r.Message != nil {
+				w.checkReportedMessage(r.Message)
 				// the application keeps the message an error report handed to it
 				w.keptReports = append(w.keptReports, &retained{src: "error-report", m: r.Message, fp: fingerprint(r.Message), index: len(w.keptReports)})
 				w.e.Probe("error-report-message-retained")
@@ -186,6 +190,43 @@ func (w *smaWorld) drainReports() {
 			return
 		}
 	}
+}
+
+// checkReportedMessage: a message handed out through an error report is a message the
+// reader returned; it must still be what the peer sent (C06: nothing the library does
+// after the read alters it). Compared at the level the harness knows for certain: the
+// sequence of top-level AVP codes of the wire message with the same command and
+// identifiers (a prefix of it when decoding stopped early).
+func (w *smaWorld) checkReportedMessage(m *diam.Message) {
+	var got []uint32
+	for _, a := range m.AVP {
+		got = append(got, a.Code)
+	}
+	candidates := 0
+	for _, c := range w.conns {
+		for _, it := range c.items {
+			if it.msg.Cmd != m.Header.CommandCode || it.msg.HbH != m.Header.HopByHopID || it.msg.E2E != m.Header.EndToEndID || it.msg.Flags != m.Header.CommandFlags {
+				continue
+			}
+			candidates++
+			if len(got) > len(it.msg.AVPs) {
+				continue
+			}
+			same := true
+			for i, code := range got {
+				if it.msg.AVPs[i].Code != code {
+					same = false
+				}
+			}
+			if same {
+				return
+			}
+		}
+	}
+	if candidates == 0 {
+		return // not one of the scripted messages (cannot be attributed)
+	}
+	w.e.Fail("C06/reported-message-differs-from-wire", "an error report handed out message %d (hop-by-hop %#x) with top-level AVP codes %v; no message the peer sent with that command and those identifiers has them", m.Header.CommandCode, m.Header.HopByHopID, got)
 }
 
 // checkKept re-fingerprints every message obtained through an error report (C06).
@@ -318,6 +359,10 @@ func (w *smaWorld) genConn(i int, nItems int) *smaConn {
 				m.AVPs = append(m.AVPs, RefAVP{Code: avpOriginState, Flags: 0x40, Data: u32(5)})
 			}
 			it.msg = m
+			if t.Chance(1, 6) {
+				it.failWrite = []string{"perm", "temp", "plain"}[t.Draw(3)]
+				it.failAfter = t.Range(0, 40)
+			}
 		case "app-req", "app-ans":
 			ac := smaAppCmds[t.Draw(len(smaAppCmds))]
 			m := RefMsg{Cmd: ac.code, App: ac.app, HbH: uint32(k + 1), E2E: uint32(100 + k)}
@@ -550,6 +595,12 @@ func (w *smaWorld) model(ci, seq int, it *smaItem, writeFaultArmed bool) bool {
 			if out := c.nextOutput(); out != nil && (out.Cmd != cmdDW || out.HbH != it.msg.HbH || out.E2E != it.msg.E2E) {
 				c.outPos--
 			}
+			return true
+		}
+		if writeFaultArmed {
+			// the DWA write failed part-way: no complete DWA is on the wire; the failure is the
+			// transport's, the connection stays as it is
+			e.Probe("dwa-write-failed")
 			return true
 		}
 		out := c.nextOutput()
